@@ -250,6 +250,12 @@ class ReadExtractor:
             if v is not None:
                 self.conv(v, ("from", ga[1] if len(ga) > 1 else "?", gpath(self.crate, ga[0]) if ga else "?"))
             return it, v
+        if last == "from_int" and len(args) == 1 and p.count("::") >= 2:
+            # generated `Enum::from_int(base)`: the same fallible table lookup as TryFrom<base> (its table is decided by C11)
+            it, v = self.visit(args[0], env)
+            if v is not None:
+                self.conv(v, ("from_int", gpath(self.crate, p.rsplit("::", 1)[0])))
+            return it, v
         if p.endswith("::from_utf8") and len(args) == 1:
             it, v = self.visit(args[0], env)
             if v is not None:
